@@ -45,6 +45,17 @@ CLAIMED = {
              'the hook-reported keys of both caches must number at most DSPLIB_FFT_CACHE_SIZE and be exactly the most recently used plans per a reference LRU run on the observed create_fft_plan/create_rfft_plan calls '
              '(nested sub-plan requests included, completion order); plan objects taken before a history must return the same terms afterwards.',
              note='History is enumerated, not symbolic; single modelled thread; cache size = build default (4). Needs the DSPLIB_VERIF hook (read-only key accessors).'),
+ 'C05': dict(design='4/C05', text='About 800 misuse-directed call programs over 57 public entry points (plan objects applied to inputs of length {0,1,2,3,n-1,n,n+1,2n}, unequal array lengths, empty and one-sample frames, '
+             'degenerate orders, minimal analysis sizes) run under the symbolic interpreter with every memory and arithmetic obligation on (bounds of live blocks, use-after-free, nsw/nuw overflow, shifts, division, '
+             'fptosi range, llvm.assume = DSPLIB_ASSUME as shipped with NDEBUG, unreachable, step budget); index lists have fully symbolic 32-bit entries and z3 decides for every value whether an access can leave the array; '
+             'nextpow2/ispow2 over all ints. Each finding is confirmed under an ASan+UBSan build (assume violations under a non-NDEBUG build, where DSPLIB_ASSUME also asserts) before it is reported.',
+             note='Lengths enumerated at the boundary values rather than symbolic; sample values concrete in the program table; from_file / stream output / allocation failure outside; pointer-formation-only UB not reported.'),
+ 'C09': dict(design='4/C09', text='REDUCED CLAIM - no interleaving is explored (pthread-level scheduling of libstdc++ code cannot be encoded with the tools present). Decided instead: the sufficient condition. For each plan kind '
+             '(small, pow2, factor, prime-DFT, Bluestein, real-packed, inverse, czt) an existing shared plan is solved with symbolic input and every store is classified; a plain store into memory reachable from a '
+             'non-thread_local global (where the shared plan lives) is a violation, stores to fresh blocks, stack, output, thread_local storage (and memory reachable only from it), atomic RMWs and lock-protected stores are not; '
+             'same for the second call of 15 free functions (plan caches, random engine per thread). A finding is replayed by a native 4-thread stress on a plan of the same algorithm class.',
+             note='Disjoint write sets + read-only sharing imply race freedom and sequential results under any schedule; store addresses are data-independent so one path covers all inputs; the memory model itself is not modelled.',
+             tech='symbolic execution of LLVM IR with store tracing (write-set non-interference); z3 only for ground obligations; native multi-thread stress as replay'),
 }
 ALL = [json.loads(l)['id'] for l in open(os.path.join(V, 'properties.jsonl'))]
 NA_REASON = {}
